@@ -217,6 +217,8 @@ var httpSpecs = map[string][]reqSpec{
 		{Verb: "POST", Path: "/rs/put", Body: `{"a":"p1"}`, Binding: "body"},
 		{Verb: "POST", Path: "/vf.rs.A/Put", Body: `{"a":"p2"}`, Binding: "implicit"},
 		{Verb: "POST", Path: "/cfg/put", Body: `{"a":"p3"}`, Binding: "config"},
+		{Verb: "POST", Path: "/any/things", Body: `{"a":"p4"}`, Binding: "any-verb"},
+		{Verb: "PUT", Path: "/any/things", Body: `{"a":"p5"}`, Binding: "any-verb"},
 	},
 	"/vf.rs.B/Get": {
 		{Verb: "GET", Path: "/rs/b/k1", Binding: "var"},
@@ -226,12 +228,14 @@ var httpSpecs = map[string][]reqSpec{
 		{Verb: "GET", Path: "/cfg/b/k5", Binding: "config"},
 		{Verb: "GET", Path: "/sv/k1/sb", Binding: "shared-var"},
 		{Verb: "GET", Path: "/sv/sh/x/pb", Binding: "shared-var"},
+		{Verb: "GET", Path: "/any/things/k6", Binding: "below-any-verb"},
 	},
 	"/vf.rs.T/Get": {
 		{Verb: "GET", Path: "/rs/t/k1", Binding: "var"},
 		{Verb: "POST", Path: "/vf.rs.T/Get", Body: `{"a":"k2"}`, Binding: "implicit"},
 		{Verb: "GET", Path: "/sv/k1/st", Binding: "shared-var"},
 		{Verb: "GET", Path: "/sv/sh/x/pt", Binding: "shared-var"},
+		{Verb: "GET", Path: "/any/things/k6/t", Binding: "below-any-verb"},
 	},
 	"/vf.rs.A/Extra": {
 		{Verb: "GET", Path: "/rs/extra/k1", Binding: "var", Want: []string{"a=k1"}},
